@@ -182,11 +182,39 @@ func runCollectAll(p *Prog, r *Report) {
 						return false
 					case *ast.ForStmt, *ast.RangeStmt, *ast.SwitchStmt, *ast.TypeSwitchStmt, *ast.SelectStmt:
 						if k != n {
-							return false // breaks inside bind to the inner statement
+							// breaks inside bind to the inner statement; returns still leave the loop
+							switch in := k.(type) {
+							case *ast.SwitchStmt:
+								visit(in.Body, depth+1)
+							case *ast.TypeSwitchStmt:
+								visit(in.Body, depth+1)
+							}
+							return false
 						}
-					case *ast.BranchStmt:
-						if s.Tok != token.BREAK || s.Label != nil {
-							return true
+					case *ast.BranchStmt, *ast.ReturnStmt:
+						exitKind := "break"
+						if bs, ok := k.(*ast.BranchStmt); ok {
+							if bs.Tok != token.BREAK || bs.Label != nil || depth > 0 {
+								return true
+							}
+						} else {
+							// returning the partial collection from inside the loop ends it like a break
+							partial := false
+							for _, res := range k.(*ast.ReturnStmt).Results {
+								if exprStr(res) == collects {
+									partial = true
+								}
+							}
+							// … unless it reports an error next to it: the caller discards the result
+							for _, res := range k.(*ast.ReturnStmt).Results {
+								if tv := info.TypeOf(res); tv != nil && tv.String() == "error" && !isNilIdent(info, res) {
+									partial = false
+								}
+							}
+							if !partial {
+								return true
+							}
+							exitKind = "return " + collects
 						}
 						nBreaks++
 						// nearest enclosing if inside the loop
@@ -197,7 +225,10 @@ func runCollectAll(p *Prog, r *Report) {
 								break
 							}
 						}
-						construct := fmt.Sprintf("break in range %s collecting %s#%d", cmpText(rs.X), collects, nBreaks)
+						construct := fmt.Sprintf("%s in range %s collecting %s#%d", exitKind, cmpText(rs.X), collects, nBreaks)
+						if exitKind != "break" {
+							construct = fmt.Sprintf("%s in range %s", exitKind, cmpText(rs.X))
+						}
 						if ifs == nil {
 							return true
 						}
@@ -624,8 +655,34 @@ func runSiblingChildCons(p *Prog, r *Report) {
 			continue
 		}
 		rv := recvObj(fn)
-		if rv == nil || !typeIs(derefType(rv.Type()), "hcl-lang/decoder", "Any") {
+		if rv == nil {
 			continue
+		}
+		// Any (the syntax-form walkers), and every other expression type that carries a
+		// constraint (`cons` field): its feature methods walk the same children
+		recvPrefix := ""
+		if !typeIs(derefType(rv.Type()), "hcl-lang/decoder", "Any") {
+			nt := namedOf(derefType(rv.Type()))
+			st, _ := derefType(rv.Type()).Underlying().(*types.Struct)
+			if nt == nil || st == nil || nt.Obj().Pkg() == nil || !strings.HasSuffix(nt.Obj().Pkg().Path(), "hcl-lang/decoder") {
+				continue
+			}
+			hasCons := false
+			for i := 0; i < st.NumFields(); i++ {
+				if canonId(st.Field(i).Name()) == "cons" {
+					hasCons = true
+				}
+			}
+			if !hasCons {
+				continue
+			}
+			switch canonId(nt.Obj().Name()) {
+			case "List", "Set", "Tuple", "Map":
+				// homogeneous containers: the children's constraint is a field of the receiver's constraint
+			default:
+				continue // Object / LiteralValue look the child's constraint up per key or per value
+			}
+			recvPrefix = canonId(nt.Obj().Name()) + ":"
 		}
 		info := fn.Info()
 		var recv types.Object
@@ -664,7 +721,7 @@ func runSiblingChildCons(p *Prog, r *Report) {
 			if vt == nil || roleOfType(vt) != roleAST {
 				return true
 			}
-			key := types.TypeString(derefType(vt), func(*types.Package) string { return "" }) + "." + sel.Sel.Name
+			key := recvPrefix + types.TypeString(derefType(vt), func(*types.Package) string { return "" }) + "." + sel.Sel.Name
 			groups[key] = append(groups[key], site{fn, call, normSym(fn, co, nil, nil, recv, 3)})
 			return true
 		})
